@@ -21,7 +21,7 @@ from .. import common, gen, prov_corr as pc
 from ..common import Result, Violation
 
 META = dict(
-    level='Lean theorems over a model of provenance recording (table = list, a run = the provenance-affecting call sites it executes): for every public entry point (date, three methods, preprocess_ts, split_disjoint_nodes), every old table and either flag value - old records are a prefix of the result (unconditional); exactly one record appended when on, table unchanged when off (given the regenerated static facts: single flag-guarded record site per entry, one loop-free static call chain to it, every tskit/tsdate callee given record_provenance=False, single add_row); the record holds command = method name, every parameter of run() with the value used (defaults resolved) and the generic parameters. Partial: "the parameters used" is proved for run() + the five generic keys; the exact list of public keywords that never reach the record is a theorem too, and the result-affecting ones among them (min_branch_length, constr_iterations, allow_unary, set_metadata, priors, simplify **kwargs) are reported as known findings, as is the TypeError raised at the very end of a call when a parameter value is a numpy scalar/array (json.dumps). The static call graph is over-approximated by name; that a static chain executes exactly once is observed (B), not proved.',
+    level='Lean theorems over a model of provenance recording (table = list, a run = the provenance-affecting call sites it executes): for every public entry point (date, three methods, preprocess_ts, split_disjoint_nodes), every old table and either flag value - old records are a prefix of the result (unconditional); exactly one record appended when on, table unchanged when off (given the regenerated static facts: single flag-guarded record site per entry, one loop-free static call chain to it, every tskit/tsdate callee given record_provenance=False, single add_row); the record holds command = method name, every parameter of run() with the value used (defaults resolved) and the generic parameters. the nine generic keys hold the values passed (they include every result-affecting keyword of date() except priors); the preprocess_ts record holds every named parameter with defaults resolved and every extra keyword handed to simplify. The exact list of public keywords that never reach the record is a theorem; the only result-affecting one left is priors (known finding). Numpy-typed parameter values are part of the correspondence (the record must hold the plain value). The static call graph is over-approximated by name; that a static chain executes exactly once is observed (B), not proved.',
     note='Lean kernel + {propext, Classical.choice, Quot.sound}; translator translate/provparams.py (AST only) trusted, cross-checked by running the model against real calls; tskit provenance schema validation by contract',
     technique='static site table regenerated from source + generic list-append theorems + decidable checks re-proved per run + correspondence on real calls',
     ref='§3 C33',
@@ -36,7 +36,6 @@ ASSUMPTIONS = [
 ]
 TRUSTED = ["translate/provparams.py; harness/prov_corr.py value tokens"]
 
-NUMPY_KIND = "numpy-parameter-value-breaks-provenance-json"
 
 
 # ----------------------------------------------------------------------------- cases
@@ -92,13 +91,18 @@ def numpy_sets(method, info):
     mu, ne = info["mu"], info["Ne"]
     if method == "variational_gamma":
         return [{"mutation_rate": mu, "rescaling_intervals": 0, "max_iterations": np.int64(3)},
-                {"mutation_rate": np.float32(mu), "rescaling_intervals": 0}]
-    return [{"mutation_rate": mu, "population_size": ne, "num_threads": np.int64(1)}]
+                {"mutation_rate": np.float32(mu), "rescaling_intervals": np.int32(0), "max_shape": np.float64(40.0)},
+                {"mutation_rate": mu, "rescaling_intervals": 0, "min_branch_length": np.float64(0.25), "constr_iterations": 2,
+                 "match_segregating_sites": np.bool_(False)}]
+    return [{"mutation_rate": mu, "population_size": ne, "num_threads": np.int64(1)},
+            {"mutation_rate": np.float64(mu), "population_size": np.float64(ne), "eps": np.float32(1e-6)},
+            {"mutation_rate": mu, "population_size": {"population_size": np.array([ne, 2 * ne]), "time_breaks": np.array([30.0])}}]
 
 
 def preprocess_sets():
     return [{}, {"minimum_gap": 5.0}, {"erase_flanks": False}, {"split_disjoint": False}, {"remove_telomeres": False},
             {"delete_intervals": [[0, 10.0]]}, {"filter_sites": True}, {"filter_populations": True}, {"keep_unary": True},
+            {"keep_input_roots": True, "keep_unary": False, "minimum_gap": 7.5},
             {"minimum_gap": 20, "erase_flanks": False, "split_disjoint": False, "filter_individuals": True}]
 
 
@@ -147,6 +151,8 @@ def oracle(entry, method, kwargs, flag, pre, post):
         if k in pc.SIMPLIFY_KWARGS:
             if k not in params:
                 bad.append(("passed-parameter-not-recorded:simplify-kwargs", f"{k}={v!r} passed on to simplify() is not in the record"))
+            elif not same_value(params[k], v, k):
+                bad.append((f"recorded-value-differs:{k}", f"{k}: passed {v!r}, recorded {params[k]!r}"))
             continue
         if k == "remove_telomeres":
             if params.get("erase_flanks") != v:
@@ -177,7 +183,7 @@ def one_call(res, stats, pending, cid, entry, method, ts, kwargs, flag, numpy_ca
     if not r["ok"]:
         stats["raised"][r["exc"]] = stats["raised"].get(r["exc"], 0) + 1
         if r["exc"] == "TypeError" and "JSON serializable" in r["msg"]:
-            kind = NUMPY_KIND if numpy_case else "provenance-json-encoding-failed"
+            kind = "numpy-parameter-value-breaks-provenance-json" if numpy_case else "provenance-json-encoding-failed"
             res.violations.append(Violation(kind, f"{label}: raised TypeError at the provenance step: {r['msg'][:80]}", rp))
         return None
     out = r["out"][0] if isinstance(r["out"], tuple) else r["out"]
@@ -186,8 +192,7 @@ def one_call(res, stats, pending, cid, entry, method, ts, kwargs, flag, numpy_ca
         res.violations.append(Violation(kind, f"{label}: {what}", rp))
     if numpy_case:
         stats["numpy_cases_ok"] += 1
-        return out
-    # ---- B
+    # ---- B (numpy-typed values included: the record must hold the plain value)
     passed = pc.bound_args(entry, method or entry, kw)
     passed.pop("record_provenance", None)
     npop = pc.normalise_population_size(passed.get("population_size")) if entry in ("date",) + tuple(pc.DATING) else None
@@ -198,11 +203,13 @@ def one_call(res, stats, pending, cid, entry, method, ts, kwargs, flag, numpy_ca
             computed = json.loads(post[-1][0])["parameters"].get("delete_intervals")
         except Exception:  # noqa: BLE001
             computed = None
+    extra = None
     if entry == "preprocess_ts":
+        extra = {k: v for k, v in kwargs.items() if k in pc.SIMPLIFY_KWARGS}
         passed = {k: v for k, v in passed.items() if k not in pc.SIMPLIFY_KWARGS}
     passed.pop("priors", None)
     pending[cid] = dict(text=pc.encode_case(cid, entry, method if entry in ("date",) + tuple(pc.DATING) else None, on, len(pre), passed,
-                                            npop, computed if computed is not None else ([] if entry == "preprocess_ts" else None)),
+                                            npop, computed if computed is not None else ([] if entry == "preprocess_ts" else None), extra),
                         impl=pc.impl_rows(pre, post), label=label, replay=rp, on=on)
     if on and len(post) == len(pre) + 1:
         res.nontrivial.add(common.canon_key([entry, method, sorted((k, str(v)[:30]) for k, v in kw.items()), len(pre)]))
